@@ -38,6 +38,12 @@ enum OutputKind {
     MissingDir,
     IsDirectory,
     BelowRegularFile,
+    /// the output path is a symbolic link whose target (in an existing directory) does not exist yet
+    DanglingSymlink,
+    /// the output path is a symbolic link to an existing file
+    SymlinkToExisting,
+    /// the output path is the input file itself
+    SameAsInput,
 }
 
 #[derive(Clone, Debug)]
@@ -97,13 +103,16 @@ fn decode(tapes: &Tapes) -> Scenario {
     let parser_short = m.chance(128);
     let derive = if m.chance(150) { Some(m.pick(CLI_DERIVES).to_string()) } else { None };
     let sort = *m.pick(&[None, Some("unsorted"), Some("name")]);
-    let output = match m.weighted(&[6, 4, 3, 1, 1, 1]) {
+    let output = match m.weighted(&[12, 8, 6, 2, 2, 2, 1, 1, 1]) {
         0 => OutputKind::Stdout,
         1 => OutputKind::NewFile,
         2 => OutputKind::ExistingFile,
         3 => OutputKind::MissingDir,
         4 => OutputKind::IsDirectory,
-        _ => OutputKind::BelowRegularFile,
+        5 => OutputKind::BelowRegularFile,
+        6 => OutputKind::DanglingSymlink,
+        7 => OutputKind::SymlinkToExisting,
+        _ => OutputKind::SameAsInput,
     };
     let args_first = m.chance(128);
     let long_existing = m.chance(128);
@@ -281,7 +290,21 @@ fn run(s: &Scenario, dir: &Path) -> Result<(), String> {
             std::fs::write(&f, b"x").map_err(|e| format!("INFRA: {}", e))?;
             Some(f.join("out.rs"))
         }
+        OutputKind::DanglingSymlink | OutputKind::SymlinkToExisting => {
+            let gen = dir.join("gen");
+            std::fs::create_dir_all(&gen).map_err(|e| format!("INFRA: {}", e))?;
+            let target = gen.join("target.rs");
+            if s.output == OutputKind::SymlinkToExisting {
+                std::fs::write(&target, old).map_err(|e| format!("INFRA: {}", e))?;
+            }
+            let link = dir.join(out_name);
+            std::os::unix::fs::symlink(&target, &link).map_err(|e| format!("INFRA symlink: {}", e))?;
+            Some(link)
+        }
+        OutputKind::SameAsInput => Some(input_path.clone()),
     };
+    let link_target = dir.join("gen").join("target.rs");
+    let is_link = |p: &Path| std::fs::symlink_metadata(p).map(|m| m.file_type().is_symlink()).unwrap_or(false);
     let mut opt_args: Vec<String> = Vec::new();
     let mut push_opt = |long: &str, short: &str, value: &str, style: usize| {
         // a value that starts with '-' can only be passed with '='
@@ -322,7 +345,10 @@ fn run(s: &Scenario, dir: &Path) -> Result<(), String> {
     let code = out.status.code();
     let lib = library(s);
     let input_ok = !matches!(s.input_kind, InputKind::Missing | InputKind::Directory) && lib.is_ok();
-    let output_ok = matches!(s.output, OutputKind::Stdout | OutputKind::NewFile | OutputKind::ExistingFile);
+    let output_ok = matches!(
+        s.output,
+        OutputKind::Stdout | OutputKind::NewFile | OutputKind::ExistingFile | OutputKind::DanglingSymlink | OutputKind::SymlinkToExisting | OutputKind::SameAsInput
+    );
     let stdout = String::from_utf8_lossy(&out.stdout).to_string();
     let stderr = String::from_utf8_lossy(&out.stderr).to_string();
     if input_ok && output_ok {
@@ -347,7 +373,16 @@ fn run(s: &Scenario, dir: &Path) -> Result<(), String> {
                 if got != expected.as_bytes() {
                     return Err(format!("output file is not header + library rendering:\n--- expected\n{}\n--- got\n{}", expected, String::from_utf8_lossy(&got)));
                 }
-                if s.rerun {
+                if matches!(s.output, OutputKind::DanglingSymlink | OutputKind::SymlinkToExisting) {
+                    if !is_link(p) {
+                        return Err("the output path was a symbolic link and has been replaced by a regular file".into());
+                    }
+                    let through = std::fs::read(&link_target).map_err(|e| format!("the link's target was not written: {}", e))?;
+                    if through != expected.as_bytes() {
+                        return Err("the link's target does not hold header + library rendering".into());
+                    }
+                }
+                if s.rerun && s.output != OutputKind::SameAsInput {
                     // a second run into the same file with other options of (often) the same output length
                     let mut s2 = s.clone();
                     s2.rerun = false;
@@ -417,6 +452,37 @@ fn run(s: &Scenario, dir: &Path) -> Result<(), String> {
                         return Err("the input was at fault but the output directory was created".into());
                     }
                 }
+                OutputKind::DanglingSymlink => {
+                    if link_target.exists() {
+                        return Err("the input was at fault but the target of the (dangling) output link was created".into());
+                    }
+                    if !is_link(&dir.join(out_name)) {
+                        return Err("the input was at fault but the output link was removed or replaced".into());
+                    }
+                }
+                OutputKind::SymlinkToExisting => {
+                    let now = std::fs::read(&link_target).map_err(|e| format!("target of the output link vanished: {}", e))?;
+                    if now != old {
+                        return Err("the input was at fault but the target of the output link was modified".into());
+                    }
+                    if !is_link(&dir.join(out_name)) {
+                        return Err("the input was at fault but the output link was removed or replaced".into());
+                    }
+                }
+                OutputKind::SameAsInput => match s.input_kind {
+                    InputKind::Missing => {
+                        if input_path.exists() {
+                            return Err("the input was missing but a file of its name (also named as output) was created".into());
+                        }
+                    }
+                    InputKind::Directory => {}
+                    _ => {
+                        let now = std::fs::read(&input_path).map_err(|e| format!("the input file vanished: {}", e))?;
+                        if now != s.input {
+                            return Err("the input was at fault and named as output too, but it was modified".into());
+                        }
+                    }
+                },
                 _ => {}
             }
         }
@@ -515,7 +581,7 @@ impl Property for C12 {
         Err(Failure::new(format!("no boundary scenario is labelled `{}`", label)))
     }
     fn rule(&self) -> String {
-        "a fixed buffer-boundary family (inputs with a 2-, 3- or 4-byte character starting 0..len bytes before offsets 4096, 8192, 16384, 24576, 32768, 65536; inputs whose output has exactly 4096/8192/16384 bytes, one or two less, one more; stdout, new file, existing file); sampled: one process run of the freshly built CLI per case: input file in {generated valid document, byte-damaged UTF-8 document, non-UTF-8, missing, a directory, element-less} x --parser/-p in {default, quick-xml-de, serde-xml-rs} x --derive=<string from a list incl. empty, leading dashes, unicode, newline, shell metacharacters> or default x --sort in {default, unsorted, name} x output in {stdout, new file, existing file (empty, short, 15 KB and thus longer than the new output, or garbage of exactly the new output's length), path in a missing directory, path that is a directory, path below a regular file}, options before or after the positional arguments, written as `--opt=value`, `--opt value` or `-o value`, file names plain or with blanks and non-ASCII characters. Four in ten successful file outputs are followed by a second run into the same file with the other sort order and a permuted derive list (often the same output length). Oracle: success = exit 0 and stdout (plus newline) or file bytes equal header + in-process library rendering with the mapped options, stdout empty when a file is named; failure = exit 1, empty stdout, non-empty stderr, named output untouched when the input was at fault. Non-trivial = any non-default option, an output file or a fault; distinct by hash of input bytes and arguments.".into()
+        "output paths also as a symbolic link (dangling, or to an existing file: written through, the link kept; untouched when the input is at fault) and as the input file itself; a fixed buffer-boundary family (inputs with a 2-, 3- or 4-byte character starting 0..len bytes before offsets 4096, 8192, 16384, 24576, 32768, 65536; inputs whose output has exactly 4096/8192/16384 bytes, one or two less, one more; stdout, new file, existing file); sampled: one process run of the freshly built CLI per case: input file in {generated valid document, byte-damaged UTF-8 document, non-UTF-8, missing, a directory, element-less} x --parser/-p in {default, quick-xml-de, serde-xml-rs} x --derive=<string from a list incl. empty, leading dashes, unicode, newline, shell metacharacters> or default x --sort in {default, unsorted, name} x output in {stdout, new file, existing file (empty, short, 15 KB and thus longer than the new output, or garbage of exactly the new output's length), path in a missing directory, path that is a directory, path below a regular file}, options before or after the positional arguments, written as `--opt=value`, `--opt value` or `-o value`, file names plain or with blanks and non-ASCII characters. Four in ten successful file outputs are followed by a second run into the same file with the other sort order and a permuted derive list (often the same output length). Oracle: success = exit 0 and stdout (plus newline) or file bytes equal header + in-process library rendering with the mapped options, stdout empty when a file is named; failure = exit 1, empty stdout, non-empty stderr, named output untouched when the input was at fault. Non-trivial = any non-default option, an output file or a fault; distinct by hash of input bytes and arguments.".into()
     }
     fn assumptions(&self) -> Vec<String> {
         vec![
